@@ -180,6 +180,13 @@ def value_rule(chk, db, rule_id, fn, kind="V", dims=None):
             else:
                 # scalar product accumulated inside the per-point loop: fold the loop body up to the accumulation into the output
                 cand = [v for v in fn.locals().values() if v.get("t") == "double" and any(classify(fn, x) for c in v.get("c", []) if isinstance(c, dict) for x in walk(c))]
+                if not cand:
+                    # double w = 1.0; ... w *= <factor>;
+                    upd = {}
+                    for q in fn.walk():
+                        if q.get("k") == "CompoundAssignOperator" and q.get("op") == "*=" and strip(q["c"][0]).get("k") == "DeclRefExpr" and any(classify(fn, x) for x in walk(q["c"][1])):
+                            upd[strip(q["c"][0])["did"]] = True
+                    cand = [v for v in fn.locals().values() if v.get("t") == "double" and v.get("did") in upd]
                 if len(cand) != 1:
                     return n
                 v = cand[0]
